@@ -75,9 +75,7 @@ impl<'a> Headers<'a> {
         let value = value.into();
 
         if name.eq_ignore_ascii_case(Self::CONTENT_LENGTH) {
-            if let Ok(s) = std::str::from_utf8(&value) {
-                self.content_length = s.trim_ascii().parse().ok();
-            }
+            self.content_length = parse_content_length(&value);
             return;
         }
 
@@ -207,6 +205,22 @@ impl<'a> Headers<'a> {
             .map(|val| val.eq_ignore_ascii_case(b"100-continue"))
             .unwrap_or(false)
     }
+}
+
+/// A Content-Length value: optional whitespace around 1*DIGIT that fits in a u64.
+fn parse_content_length(value: &[u8]) -> Option<u64> {
+    let digits = trim_ows(value);
+    if digits.is_empty() {
+        return None;
+    }
+    let mut n: u64 = 0;
+    for &b in digits {
+        if !b.is_ascii_digit() {
+            return None;
+        }
+        n = n.checked_mul(10)?.checked_add((b - b'0') as u64)?;
+    }
+    Some(n)
 }
 
 /// Strips optional whitespace (SP / HTAB) from both ends of a list member.
